@@ -1266,6 +1266,7 @@ pub fn run_history<C: OrdColl>(hint: usize, uni: (i32, i32), ops: &[OOp], mon: &
     let base_live = cb::ledger_live();
     let base_bad = cb::ledger_bad_drops();
     {
+        ctx::set(hist, 0); // a crash inside the constructor belongs to this history too
         let mut ex = OrdExec::<C>::new(hint, uni);
         for (i, op) in ops.iter().enumerate() {
             ctx::set(hist, i as u64);
